@@ -449,6 +449,20 @@ impl Default for RecvState {
     }
 }
 
+#[cfg(feature = "quinn_rs_quinn_verif")]
+impl Recv {
+    /// (state: (reset?, size, code), sent_max_stream_data, end, stopped)
+    pub(super) fn verif_view(&self) -> ((bool, Option<u64>, u64), u64, u64, bool) {
+        let st = match self.state {
+            RecvState::Recv { size } => (false, size, 0),
+            RecvState::ResetRecvd { size, error_code } => {
+                (true, Some(size), error_code.into_inner())
+            }
+        };
+        (st, self.sent_max_stream_data, self.end, self.stopped)
+    }
+}
+
 #[cfg(test)]
 mod tests {
     use bytes::Bytes;
